@@ -35,7 +35,11 @@ REQUIRED_HITS = ['io.write', 'io.read', 'fault_injected', 'close_checked', 'sour
 FLOOR = {'quick': 300, 'thorough': 3000}
 
 PROGRAMS = ['var a = 1;', 'function f(x) { return x + 1; }\nf(2);', 'if (a) { b(); } else c = [1, , 2];',
-            'var o = {k: "v", get g() { return 1; }};', 'for (var i = 0; i < 3; i++) s += i;\n// done\n']
+            'var o = {k: "v", get g() { return 1; }};', 'for (var i = 0; i < 3; i++) s += i;\n// done\n',
+            # names outside ASCII (they reach the map's "names" when the printer renames them) and bytes that
+            # make every base64 digit occur in an inline map
+            'function \u5909\u6570(a\u306f\u3044, a\xff, \u51fa\u529b) { return a\u306f\u3044 + a\xff + \u51fa\u529b + "?>~\xff\xfe"; }',
+            'var gr\xf6\xdfe = function (\u00ffy, z\u00ff\u00ff) { return \u00ffy > z\u00ff\u00ff ? "~~~" : "???"; };']
 
 
 class FaultInjected(Exception):
